@@ -552,6 +552,8 @@ def check_C09(res, scratch, tier, seed):
     elif t["status"] != "ok":
         raise Infra("TLC MCLook2: %s\n%s" % (t["status"], t["tail"][-2500:]))
     res.add_tlc(t)
+    # --- the sets recorded at levels 1 and 2 are the sets of the two pruning machines (LookTrace.tla; drift only)
+    look_trace_part(res, scratch, tier, seed, builds)
     # --- the sets reused from the cache and their fresh re-computations are valid Earley sets (EarleyTrace.tla)
     earley_trace_part(res, scratch, tier, seed + 1, builds, ("C09",), kinds=("curated", "random", "random_err", "random_trans"))
     # --- TLC validates the groups
@@ -1477,6 +1479,67 @@ def set_sweep_part(res, scratch, tier, seed, builds, props, n=None):
                     if any(reason.startswith(p) for p in props):
                         res.violation("trace|" + reason, {"line": ln, "reason": reason, "found_by": "continuation generated by Witness.tla from a recorded set that lacks ideal items"})
             res.notes["witness_parses_validated"] = res.notes.get("witness_parses_validated", 0) + len(wl)
+
+
+def look_trace_part(res, scratch, tier, seed, builds):
+    """Conformance of the sets recorded at lookahead 1 and 2 with the pruning machines Look.tla / Look2.tla (LookTrace.tla): the
+    recorded set at every position must be the machine's set.  Differences are drift (reported in the evidence), not violations."""
+    import concurrent.futures as cf
+    cur = [e for e in _corpus.curated() if len(e["rules"]) <= 9]
+    ents = cur + _corpus.random_grammars(seed + 6000, 60 if tier == "quick" else 600, nnts=3, nterms=3, maxrules=6, maxlen=0) \
+        + _corpus.random_grammars(seed + 6500, 30 if tier == "quick" else 300, nnts=3, nterms=2, maxrules=5, err=True, maxlen=0)
+    rnd = random.Random(seed + 3)
+    for e in ents:
+        sents = _corpus.gen_sentences(e["rules"], rnd, 4, 9)
+        e["inputs"] = ([w for w in e["inputs"] if len(w) <= 12][:3] + sents + _corpus.damaged_inputs(sents[:2], e["alphabet"], rnd, 1))[:8]
+    code = CODEMAPS["ascii"]
+    blocks, meta = [], {}
+    for e in ents:
+        if not e["inputs"]:
+            continue
+        vec = {"id": e["id"], "terms": e["terms"], "rules": e["rules"], "dn": [], "ds": [], "cases": [{"w": w, "sent": False, "nd": 0, "fo": -1} for w in e["inputs"]]}
+        b = blocks_from_vector(vec, [(1, 1, 0, 0, 3, 0), (2, 1, 0, 0, 3, 0)], mems=(1,), want_trees=False)
+        if not b:
+            continue
+        blocks.append([ln.replace("X sent=0 nd=-1", "X sent=-1") if ln.startswith("X ") else ln for ln in b])
+        meta[e["id"]] = e
+    recs, st = run_harness(os.path.join(builds[0], "yv_replay"), blocks, args=("-t", "-s"))
+    lines = []
+    for r in recs:
+        if r.get("k") != "parse" or r["rc"] != 0 or r["la"] not in (1, 2):
+            continue
+        e = meta[r["g"]]
+        c2n = {code(t["c"]): t["n"] for t in e["terms"]}
+        if any(c not in c2n for c in r["toks"]):
+            continue
+        sets = []
+        for ev in r.get("ev", []):
+            if ev["k"] == 1 and ev["a"] == len(sets):
+                sets.append([it[:3] for it in ev["it"]])
+        if sets:
+            lines.append({"id": "%s/%s/%d" % (r["g"], r["w"], r["la"]), "terms": [t["n"] for t in e["terms"]], "rules": e["rules"], "w": [c2n[c] for c in r["toks"]],
+                          "la": r["la"], "sets": sets})
+    chunks = [lines[i:i + 150] for i in range(0, len(lines), 150)]
+    cfgx = "CONSTANTS\n  GrammarsC <- DummyGL\n  TermsC = {1}\n  MaxPl = 1\n"
+
+    def work(args):
+        i, ch = args
+        return validate_trace(scratch, "LookTrace", ch, "look_tr%d" % i, timeout=3000, cfg_extra=cfgx), ch
+    ndrift = 0
+    with cf.ThreadPoolExecutor(max_workers=max(1, NCPU // 2)) as ex:
+        for (ok, rej, tt), ch in ex.map(work, list(enumerate(chunks))):
+            if not ok:
+                raise Infra("LookTrace validation did not finish: " + tt["tail"][-2500:])
+            res.cov["states"] += tt.get("distinct", 0)
+            res.cov["transitions"] += tt.get("states", 0)
+            res.cov["traces_validated_against_impl"] += len(ch)
+            for (lno, lid, reasons) in rej:
+                ndrift += 1
+                if len(res.notes.setdefault("lookahead_machine_drift_examples", [])) < 3:
+                    res.notes["lookahead_machine_drift_examples"].append({"id": lid, "reason": reasons[0], "line": ch[lno - 1]})
+    res.notes["lookahead_sets_lines_validated"] = res.notes.get("lookahead_sets_lines_validated", 0) + len(lines)
+    res.notes["lookahead_sets_validated"] = res.notes.get("lookahead_sets_validated", 0) + sum(len(ln["sets"]) for ln in lines)
+    res.notes["lookahead_machine_drift"] = res.notes.get("lookahead_machine_drift", 0) + ndrift
 
 
 # ------------------------------------------------------------------ self-test of the binding (not a registered check)
